@@ -82,7 +82,7 @@ func main() {
 		}
 	case "idl":
 		r := vl.NewRng(*seed)
-		p := genProgram(r, *stress, func(string) {})
+		p, streaming := genProgram(r, *stress, func(string) {})
 		files := p.Render()
 		var names []string
 		for n := range files {
@@ -96,7 +96,7 @@ func main() {
 		for _, l := range s.Lines("u0", nil) {
 			fmt.Println(l)
 		}
-		for _, si := range serviceTable(p, s) {
+		for _, si := range serviceTable(p, s, streaming) {
 			fmt.Println(si.vLine("u0"))
 		}
 	case "run":
@@ -118,14 +118,13 @@ func main() {
 	}
 }
 
-func genProgram(r *vl.Rng, stress bool, count func(string)) *idlgen.Program {
+func genProgram(r *vl.Rng, stress bool, count func(string)) (*idlgen.Program, map[*idlgen.Function]string) {
 	cfg := idlgen.DefaultConfig()
 	cfg.Services = false
 	cfg.SafeNames = !stress
 	cfg.MaxStructs, cfg.MaxFields, cfg.MaxConsts, cfg.MaxTypedefs = 3, 5, 1, 3
 	p := idlgen.Generate(r, cfg)
-	addServices(r, p, stress, 2+r.Intn(3), count)
-	return p
+	return p, addServices(r, p, stress, 2+r.Intn(3), count)
 }
 
 // ---------------------------------------------------------------- messages (harness side, independent of the model)
@@ -1181,9 +1180,11 @@ func run(repo, dir string, seed uint64, nprog int, tier string, keep bool, only 
 	r := vl.NewRng(seed)
 
 	var units []batch.Unit
+	var streams []map[*idlgen.Function]string
 	for i := 0; i < nprog; i++ {
 		stress := i%4 == 3
-		p := genProgram(r, stress, out.Count)
+		p, streaming := genProgram(r, stress, out.Count)
+		streams = append(streams, streaming)
 		p.Stats(out.Count)
 		o := optionSets[(i+int(seed))%len(optionSets)]
 		if i == 0 {
@@ -1228,7 +1229,7 @@ func run(repo, dir string, seed uint64, nprog int, tier string, keep bool, only 
 		if !u.OK() {
 			continue
 		}
-		tables[i] = serviceTable(units[i].Prog, u.Schema)
+		tables[i] = serviceTable(units[i].Prog, u.Schema, streams[i])
 		scanned, err := scanUnit(mod, u.Files)
 		if err != nil {
 			fmt.Println("scan", u.Key, err)
